@@ -942,7 +942,7 @@ def generate(unit, template_text, repo_root, units_dir=None):
         counts = {}
         for (tl, text) in blk.contract:
             cprops = props
-            mt = re.match(r"^(\s*)\[([A-Z0-9,]+)\]\s*(.*)$", text)
+            mt = re.match(r"^(\s*(?:(?:requires|ensures)\s+)?)\[([A-Z0-9,]+)\]\s*(.*)$", text)
             if mt:
                 cprops = [x for x in mt.group(2).split(",") if x]
                 text = mt.group(1) + mt.group(3)
